@@ -137,15 +137,25 @@ def isTmp : Kind → Bool
   | .tmp _ => true
   | _ => false
 
+/-- `cacheParamFileMap`, first loop: arguments whose names refer to no existing file are dropped -/
+def dropNoFiles (c : Cfg) (s : St) : St :=
+  s.dom.foldl (fun s a => if (c.filesOf a).isEmpty then removeFileArg s a else s) s
+
+/-- `cacheParamFileMap`, the walk: one entry per file or directory below the
+files/ directories, with the arguments (that have files) referring to it -/
+def cacheEntries (c : Cfg) (s : St) : List Entry :=
+  (s.disk.filter (fun d => !isTmp d.kind)).map fun d =>
+    { path := d.path
+      args := (s.dom.filter fun a => !(c.filesOf a).isEmpty).filter (fun a => refs c a d.path)
+      size := d.size, count := 1 }
+
+/-- `cacheParamFileMap`, last loop: arguments no entry refers to are dropped -/
+def dropUnused (es : List Entry) (s : St) : St :=
+  s.dom.foldl (fun s a => if !(es.any (fun e => e.args.contains a)) then removeFileArg s a else s) s
+
 /-- `Fork.cacheParamFileMap` -/
 def cacheMap (c : Cfg) (s : St) : St :=
-  let s1 := s.dom.foldl (fun s a => if (c.filesOf a).isEmpty then removeFileArg s a else s) s
-  let args0 := s.dom.filter fun a => !(c.filesOf a).isEmpty
-  let entries : List Entry := (s.disk.filter (fun d => !isTmp d.kind)).map fun d =>
-    { path := d.path, args := args0.filter (fun a => refs c a d.path), size := d.size, count := 1 }
-  let s2 := s1.dom.foldl
-    (fun s a => if entries.any (fun e => e.args.contains a) then s else removeFileArg s a) s1
-  { s2 with cache := some entries }
+  { dropUnused (cacheEntries c s) (dropNoFiles c s) with cache := some (cacheEntries c s) }
 
 /-- `Fork.updateParamFileCache` -/
 def updateCache (s : St) (es : List Entry) : List Entry :=
@@ -168,28 +178,35 @@ entries the Go code enumerates before walking below them) -/
 def topLevel (l : List Path) : List Path :=
   l.filter fun p => !(l.any fun q => q != p && pathIsInside p q)
 
+/-- the first lines of `vdrKillSome`: build the cache or bring it up to date -/
+def normCache (c : Cfg) (s : St) : St :=
+  match s.cache with
+  | none => cacheMap c s
+  | some es => { s with cache := some (updateCache s es) }
+
+/-- the removal itself: every cache entry that no argument keeps alive -/
+def killCore (s : St) (es : List Entry) : St :=
+  let kill := es.filter (fun e => e.args.isEmpty)
+  let killPaths := kill.map (·.path)
+  { s with
+    disk := s.disk.filter fun d => !(killPaths.any (fun k => pathIsInside d.path k))
+    removed := s.removed ++ s.disk.filter fun d => killPaths.any (fun k => pathIsInside d.path k)
+    cache := some (es.filter (fun e => !e.args.isEmpty))
+    report := { paths := s.report.paths ++ collapse [] (killPaths.mergeSort pathLe)
+                count := s.report.count + sumECount kill
+                size := s.report.size + sumESize kill
+                deltas := s.report.deltas ++ [-(Int.ofNat (sumESize kill))] } }
+
 /-- `Fork.vdrKillSome` -/
 def vdrKillSome (c : Cfg) (s : St) (done : Bool) : St :=
-  let s := match s.cache with
-    | none => cacheMap c s
-    | some es => { s with cache := some (updateCache s es) }
+  let s := normCache c s
   let es := s.cache.getD []
-  let kill := es.filter (fun e => e.args.isEmpty)
-  if kill.isEmpty then
+  if (es.filter (fun e => e.args.isEmpty)).isEmpty then
     (if done then { s with final := true } else s)
   else
-    let killPaths := kill.map (·.path)
-    let gone := s.disk.filter fun d => killPaths.any (fun k => pathIsInside d.path k)
-    let rest := es.filter (fun e => !e.args.isEmpty)
-    let s' := { s with
-      disk := s.disk.filter fun d => !(killPaths.any (fun k => pathIsInside d.path k))
-      removed := s.removed ++ gone
-      cache := some rest
-      report := { paths := s.report.paths ++ collapse [] (killPaths.mergeSort pathLe)
-                  count := s.report.count + sumECount kill
-                  size := s.report.size + sumESize kill
-                  deltas := s.report.deltas ++ [-(Int.ofNat (sumESize kill))] } }
-    if rest.isEmpty || done || s.postNodes.isEmpty then { s' with final := true } else s'
+    let s' := killCore s es
+    if (es.filter (fun e => !e.args.isEmpty)).isEmpty || done || s.postNodes.isEmpty
+    then { s' with final := true } else s'
 
 /-- `cleanSplitTemp` / `cleanChunkTemp` / `cleanJoinTemp` for the phases below `upto` -/
 def cleanTmp (c : Cfg) (s : St) (upto : Nat) : St :=
@@ -285,17 +302,20 @@ structure KReport where
   size : Nat := 0
   deriving DecidableEq, Repr
 
-/-- `mergeVDRKillReports` (`none` = a nil entry) -/
+/-- one step of the loop of `mergeVDRKillReports` (`none` = a nil entry) -/
+def mergeAcc (acc : KReport) (r : Option KReport) : KReport :=
+  match r with
+  | none => acc
+  | some r => { stamp := if acc.stamp == 0 || acc.stamp < r.stamp then r.stamp else acc.stamp
+                paths := acc.paths ++ r.paths
+                errors := acc.errors ++ r.errors
+                events := acc.events ++ r.events
+                count := acc.count + r.count
+                size := acc.size + r.size }
+
+/-- `mergeVDRKillReports` -/
 def mergeReports (rs : List (Option KReport)) : KReport :=
-  let all := rs.foldl (fun (acc : KReport) r =>
-    match r with
-    | none => acc
-    | some r => { stamp := if acc.stamp == 0 || acc.stamp < r.stamp then r.stamp else acc.stamp
-                  paths := acc.paths ++ r.paths
-                  errors := acc.errors ++ r.errors
-                  events := acc.events ++ r.events
-                  count := acc.count + r.count
-                  size := acc.size + r.size }) {}
+  let all := rs.foldl mergeAcc {}
   { all with events := mergeEvents all.events }
 
 end Martian.Vdr
